@@ -129,8 +129,9 @@ impl SlidingLogState {
                 Ok(time_until_slot)
             }
         } else {
-            // Should not happen if limit > 0
-            Ok(Duration::ZERO)
+            // Only reachable with limit_for_period = 0: there is never a permit to wait for
+            // (ZERO here would be read as "permit taken" by the caller)
+            Err(self.timeout_duration)
         }
     }
 
